@@ -15,6 +15,7 @@
   instead of totalising `0/0`).  In every error case nothing has been written to the state.
 -/
 import AcnProofs.Lemmas.BatteryReal
+import AcnModel.EvseRun
 
 namespace Acn.C03
 open Acn Acn.Battery Acn.BattAlg Acn.BattReal Acn.Evse
@@ -188,6 +189,96 @@ theorem ev_rate_le_pilot {e e' : Ev ℝ} (hb : Inv e.batt) {pilot V T ν : ℝ} 
     · show e.delivered + r * V / ((1000 : ℕ) : ℝ) * (T / ((60 : ℕ) : ℝ)) = _
       simp only [Nat.cast_ofNat]
 
+/-! ### through the EVSE (evse.py `BaseEVSE.set_pilot`, every EVSE class) -/
+
+/-- through `set_pilot` with an EV connected — EVERY EVSE class (`s.kind`: continuous, deadband,
+    finite rates), every acceptance tolerance: a call that returns has recorded exactly the
+    commanded pilot, the rate the EV records lies in `[0, recorded pilot]`, the delivered energy
+    does not fall and the battery keeps its invariant.  (What the EVSE presents to the EV is the
+    commanded pilot itself, also for the pilots it accepts only within tolerance: just above 0 or
+    just below the deadband end on a `DeadbandEVSE`, next to a listed rate on a
+    `FiniteRatesEVSE`.) -/
+theorem evse_rate_le_pilot (atol fixedAtol : ℝ) {s s' : Evse ℝ} {e : Ev ℝ} (he : s.ev = some e)
+    (hb : Inv e.batt) {p V T ν : ℝ} (hp : 0 ≤ p)
+    (h : setPilot atol fixedAtol s p V T ν = .ok s') :
+    s'.pilot = p ∧ s'.kind = s.kind ∧
+    ∃ e', s'.ev = some e' ∧ 0 ≤ e'.rate ∧ e'.rate ≤ s'.pilot ∧ e.delivered ≤ e'.delivered ∧
+      Inv e'.batt := by
+  unfold setPilot at h
+  split at h
+  · rw [he] at h
+    simp only at h
+    cases hc : e.charge p V T ν with
+    | error x => rw [hc] at h; cases h
+    | ok e' =>
+      rw [hc] at h
+      simp only [Except.ok.injEq] at h; subst h
+      obtain ⟨h0, h1, h2, _, h4⟩ := ev_rate_le_pilot hb hp hc
+      exact ⟨rfl, rfl, e', rfl, h0, h1, h2, h4⟩
+  · cases h
+
+/-- one `set_pilot` call with the state it leaves behind (`setPilotSt`): a returning call as in
+    `evse_rate_le_pilot`; a failing call leaves the EV and its battery untouched, and a call
+    refused with `InvalidRateError` leaves the whole EVSE untouched -/
+theorem evse_call_spec (atol fixedAtol : ℝ) {s : Evse ℝ} {e : Ev ℝ} (he : s.ev = some e)
+    (hb : Inv e.batt) {c : PilotCall ℝ} (hp : 0 ≤ c.p) :
+    ((setPilotSt atol fixedAtol s c).2 = none →
+      (setPilotSt atol fixedAtol s c).1.pilot = c.p ∧
+      ∃ e', (setPilotSt atol fixedAtol s c).1.ev = some e' ∧ 0 ≤ e'.rate ∧ e'.rate ≤ c.p ∧
+        e.delivered ≤ e'.delivered ∧ Inv e'.batt) ∧
+    ((setPilotSt atol fixedAtol s c).2 ≠ none → (setPilotSt atol fixedAtol s c).1.ev = some e) ∧
+    (∀ x, (setPilotSt atol fixedAtol s c).2 = some x → x = .invalidRate →
+      (setPilotSt atol fixedAtol s c).1 = s) := by
+  unfold setPilotSt
+  cases h : setPilot atol fixedAtol s c.p c.V c.T c.ν with
+  | ok s' =>
+    obtain ⟨h1, _, e', h3, h4, h5, h6, h7⟩ := evse_rate_le_pilot atol fixedAtol he hb hp h
+    refine ⟨fun _ => ⟨h1, e', h3, h4, h1 ▸ h5, h6, h7⟩, fun hne => absurd rfl hne, ?_⟩
+    intro x hx; cases hx
+  | error err =>
+    cases err with
+    | invalidRate =>
+      refine ⟨fun hn => (by cases hn), fun _ => he, fun _ _ _ => rfl⟩
+    | stationOccupied =>
+      refine ⟨fun hn => (by cases hn), fun _ => he, ?_⟩
+      intro x hx hi; subst hi; cases hx
+    | valueError =>
+      refine ⟨fun hn => (by cases hn), fun _ => he, ?_⟩
+      intro x hx hi; subst hi; cases hx
+
+/-- **along ANY history of `set_pilot` calls** (non-negative pilots, arbitrary voltages, periods
+    and noise draws, whatever the EVSE class accepts or refuses) on an EVSE whose EV's battery
+    satisfies the invariant: after every call the EV is still there with the invariant, and
+    after every call that returned the recorded pilot is the commanded one and
+    `0 ≤ recorded rate ≤ recorded pilot`.  Induction over the call list. -/
+theorem evse_bounds_along_history (atol fixedAtol : ℝ) (calls : List (PilotCall ℝ)) :
+    ∀ (s : Evse ℝ) (e : Ev ℝ), s.ev = some e → Inv e.batt → (∀ c ∈ calls, 0 ≤ c.p) →
+    ∀ x ∈ runPilots atol fixedAtol s calls, ∃ e', x.2.1.ev = some e' ∧ Inv e'.batt ∧
+      (x.2.2 = none → x.2.1.pilot = x.1.p ∧ 0 ≤ e'.rate ∧ e'.rate ≤ x.2.1.pilot) := by
+  induction calls with
+  | nil => intro s e _ _ _ x hx; simp [runPilots] at hx
+  | cons c cs ih =>
+    intro s e he hb hcs x hx
+    have hc := hcs c (List.mem_cons_self ..)
+    have hrest : ∀ c' ∈ cs, 0 ≤ c'.p := fun c' h => hcs c' (List.mem_cons_of_mem _ h)
+    obtain ⟨hok, herr, _⟩ := evse_call_spec atol fixedAtol he hb hc
+    -- the EV after this call, with its invariant
+    have hnext : ∃ e', (setPilotSt atol fixedAtol s c).1.ev = some e' ∧ Inv e'.batt := by
+      cases hr : (setPilotSt atol fixedAtol s c).2 with
+      | none => obtain ⟨_, e', h1, _, _, _, h5⟩ := hok hr; exact ⟨e', h1, h5⟩
+      | some y => exact ⟨e, herr (by rw [hr]; simp), hb⟩
+    simp only [runPilots] at hx
+    rcases List.mem_cons.mp hx with rfl | hx
+    · obtain ⟨e', h1, h2⟩ := hnext
+      refine ⟨e', h1, h2, ?_⟩
+      intro hn
+      obtain ⟨hp', e'', h1', h3, h4, _, _⟩ := hok hn
+      have : e'' = e' := by rw [h1'] at h1; exact Option.some.inj h1
+      subst this
+      exact ⟨hp', h3, hp' ▸ h4⟩
+    · obtain ⟨e', h1, h2⟩ := hnext
+      exact ih _ e' h1 h2 hrest x hx
+
 /-! ### non-vacuity -/
 
 /-- the F1 replay battery: `Linear2StageBattery(50, 40, 7, noise_level=2.0)` -/
@@ -231,5 +322,26 @@ example : (match idealCharge nearFull 32 208 60 with
 example : ∀ o ∈ [Op.charge (16 : ℝ) 208 5 0.3, .charge 0 208 5 (-7), .charge 32 (-1) 5 0,
     .reset none, .reset (some 60)], OpAdmissible o := by
   intro o ho; simp at ho; rcases ho with rfl | rfl | rfl | rfl | rfl <;> simp [OpAdmissible]
+
+/-- the concrete instances below use an ideal battery, which never calls `exp` -/
+local instance : HasExp ℚ := ⟨fun x => x⟩
+
+/-- a `DeadbandEVSE(deadband_end=6, max_rate=32)` with the near-full ideal battery's EV: the
+    pilot `1/2000` (inside the tolerance of 0) is accepted, recorded as commanded, and the EV
+    charges at no more than that -/
+def dbEvse : Evse ℚ :=
+  { station := "S", kind := .deadband 6 (some 32), pilot := 0,
+    ev := some { session := "s", station := "S", arrival := 0, departure := 1, estDeparture := 1,
+                 requested := 0, delivered := 0, rate := 0, batt := nearFull } }
+
+example : (match setPilotSt (1 / 1000) (1 / 1000) dbEvse ⟨1 / 2000, 208, 5, 0⟩ with
+    | (s', none) => decide (s'.pilot = 1 / 2000) &&
+        (match s'.ev with | some e' => decide (0 < e'.rate ∧ e'.rate ≤ 1 / 2000) | none => false)
+    | _ => false) = true := by decide +kernel
+
+/-- … and `3` (inside the deadband) is refused, leaving the EVSE untouched -/
+example : (match setPilotSt (1 / 1000) (1 / 1000) dbEvse ⟨3, 208, 5, 0⟩ with
+    | (s', some CallErr.invalidRate) => decide (s'.pilot = 0)
+    | _ => false) = true := by decide +kernel
 
 end Acn.C03
